@@ -1,0 +1,44 @@
+// Licensed to Apache Software Foundation (ASF) under one or more contributor
+// license agreements. See the NOTICE file distributed with
+// this work for additional information regarding copyright
+// ownership. Apache Software Foundation (ASF) licenses this file to you under
+// the Apache License, Version 2.0 (the "License"); you may
+// not use this file except in compliance with the License.
+// You may obtain a copy of the License at
+//
+//     http://www.apache.org/licenses/LICENSE-2.0
+//
+// Unless required by applicable law or agreed to in writing,
+// software distributed under the License is distributed on an
+// "AS IS" BASIS, WITHOUT WARRANTIES OR CONDITIONS OF ANY
+// KIND, either express or implied.  See the License for the
+// specific language governing permissions and limitations
+// under the License.
+
+//go:build verif
+
+// Contracts for the row-path measure plan nodes (comment-only; read by /verif/govc).
+
+package measure
+
+//@ section C09
+//
+// limit/offset is a window of the ordered input: the k-th item delivered is input item offset+k, at most limit items are
+// delivered, and none is skipped inside the window. skipped/emitted are stated through the input cursor position.
+//@ func limitIterator.Next
+//@   mode int
+//@   requires l != nil && l.inner != nil
+//@   requires sync: l.inner.pos == l.index || (l.inner.done && l.inner.pos < l.index)
+//@   requires reachable: l.index < 9223372036854775808
+//@   modifies l.index
+//@   modifies l.inner.pos
+//@   modifies l.inner.done
+//@   ensures  window: result ==> l.inner.pos == old(l.inner.pos) + ite(old(l.index) < l.offset, l.offset - old(l.index), 0) + 1 && l.offset < l.inner.pos && l.inner.pos <= l.offset + l.limit
+//@   ensures  stop: !result ==> l.inner.done || l.inner.pos >= l.offset + l.limit
+//@   ensures  resync: l.inner.pos == l.index || (l.inner.done && l.inner.pos < l.index)
+//@   loop 0 invariant old(l.index) <= l.index && (l.index <= l.offset || l.index == old(l.index))
+//@   loop 0 invariant l.inner.pos == l.index || (l.inner.done && l.inner.pos < l.index && l.index == old(l.index))
+//@   loop 0 invariant l.inner.pos == old(l.inner.pos) + (l.index - old(l.index))
+//@ func newLimitIterator
+//@   mode int
+//@   ensures  result != nil && result.index == 0 && result.offset == offset && result.limit == limit && result.inner == inner
